@@ -66,6 +66,7 @@ CONTAINERS = ("da1", "da2", "da2s", "mi_feat", "mi_samp", "dataset", "list", "li
 HAS_LAT = {"da2", "dataset"}
 NANS = ("none", "feature", "sample")
 LAZY = ("eager", "dask_eager", "lazy_pre", "lazy_post")
+LAZY_PRE_QUICK = ("EOF", "HilbertEOF", "SparsePCA", "POP", "OPA", "EOFRotator", "MCA", "CPCCA", "MCARotator")
 HISTS = ("none", "transform", "transform_new", "inverse", "reloaded")
 WHERES = ("data", "coord", "sample_coord", "global", "all")
 NAMES = ("default", "none", "empty", "unicode", "space", "dotted", "mean_", "feature", "mode", "scores")
@@ -232,7 +233,8 @@ def _case(cls, container="da2", nan="none", attr="plain", where="data", pv="defa
 
 
 def _draw(rng):
-    cls = str(rng.choice(CLASSES))
+    w = np.array([2.0] * len(SINGLE_ALL) + [1.0] * len(CROSS_ALL))  # a cross-set case costs twice a single-set one
+    cls = str(rng.choice(CLASSES, p=w / w.sum()))
     pvs = pv_names(cls)
     return _case(
         cls,
@@ -241,7 +243,7 @@ def _draw(rng):
         attr=str(rng.choice(("none",) + ATTR_KINDS)),
         where=str(rng.choice(WHERES)),
         pv=str(rng.choice(pvs)),
-        lazy=str(rng.choice(LAZY, p=[0.55, 0.1, 0.2, 0.15])),
+        lazy=str(rng.choice(LAZY, p=[0.7, 0.09, 0.06, 0.15])),
         hist=str(rng.choice(HISTS, p=[0.4, 0.15, 0.2, 0.1, 0.15])),
         name=str(rng.choice(NAMES, p=[0.55] + [0.05] * 9)),
         cplx=bool(rng.random() < 0.5),
@@ -259,7 +261,7 @@ def cases(tier, seed):
     # B. representatives x container x NaN mask
     for i, cls in enumerate(REPS):
         for j, cont in enumerate(CONTAINERS):
-            if quick and (i + j) % 2 and cls not in ("EOF", "MCA"):
+            if quick and (i + j) % 3 and cls not in ("EOF", "MCA"):
                 continue
             out.append(_case(cls, cont, nan=NANS[(i + j) % 3], attr="plain", where="all", dseed=200 + 10 * i + j, base_i=j))
     # C. attribute catalogue x location, all six round trips
@@ -270,7 +272,7 @@ def cases(tier, seed):
                 continue
             cont = "dataset" if where == "global" else ("da2" if (i + j) % 2 == 0 else "list_ds")
             if quick:
-                cls = "MCA" if (i + j) % 4 == 3 else "EOF"
+                cls = "MCA" if (i + j) % 8 == 3 else "EOF"
             else:
                 cls = ("EOF", "MCA", "EOFRotator", "ComplexEOF", "CPCCA")[(i + j) % 5]
             out.append(_case(cls, cont, attr=kind, where=where, dseed=300 + i))
@@ -281,13 +283,15 @@ def cases(tier, seed):
         for j, pv in enumerate(pv_names(cls)):
             if pv == "default":
                 continue
-            if quick and cls not in REPS and pv not in ("np_scalar", "tuples"):
+            if quick and (cls not in REPS or ((i + j) % 2 and pv not in ("np_scalar", "tuples", "lists"))):
                 continue
             out.append(_case(cls, "da2", pv=pv, dseed=400 + i, base_i=j))
     # E. lazy models
     for i, cls in enumerate(CLASSES):
         for lz in ("lazy_pre", "lazy_post") + (() if quick else ("dask_eager",)):
-            if quick and cls not in REPS and lz == "lazy_pre":
+            if quick and lz == "lazy_pre" and cls not in LAZY_PRE_QUICK:
+                continue
+            if quick and lz == "lazy_post" and cls not in REPS:
                 continue
             out.append(_case(cls, ("da2", "dataset", "list")[i % 3], lazy=lz, dseed=500 + i, base_i=i))
     # F. histories
@@ -304,7 +308,7 @@ def cases(tier, seed):
     for i, c in enumerate(out):
         # quick: sections other than A and C run three of the six round trips (alternating halves)
         c["combos"] = "all" if (not quick or i < n_all or c["attr"] not in ("plain",)) else ("a", "b")[i % 2]
-    nrand = 110 if quick else 7000
+    nrand = 80 if quick else 7000
     for j in range(nrand):
         c = _draw(gen.rng_for(seed, 13, j))
         c["combos"] = ("a", "b")[j % 2] if quick else "all"
@@ -711,6 +715,7 @@ def _queries(f, ctx, light=False):
                     leaves.append((path, leaf))
             out.append((op, ("ok", leaves)))
         except Exception as e:  # noqa: BLE001
+            _through(e)
             out.append((op, ("exc", e)))
     return out
 
@@ -804,88 +809,67 @@ def _fit(case, fields, dim):
         kw["compute"] = False
         if rot is not None:
             rot["compute"] = False
-            rot["max_iter"] = 6  # compute=False unrolls max_iter iterations into the graph
+    if case["lazy"] != "eager" and rot is not None:
+        rot["max_iter"] = 6  # dask input: the rotation iterations are unrolled into / run through the graph
     return zoo.fit(name, fields, dim, kw=kw, rot_kw=rot, base_name=bn if rot is not None else None)
 
 
-def run_case(case, obs):
+def _through(e):
+    """never swallow the runner's watchdog"""
+    if type(e).__name__ == "_CaseTimeout" or isinstance(e, (MemoryError, KeyboardInterrupt)):
+        raise e
+
+
+def _in_serialisation(e):
+    import traceback
+
+    names = [fs.name for fs in traceback.extract_tb(e.__traceback__) if fs.filename.startswith(REPO + "/xeofs")]
+    return any("serializ" in n for n in names)
+
+
+def _exc_tags(e, **kw):
+    return dict(kw, symptom="exception", exc=type(e).__name__, site=str(exception_site(e, REPO)))
+
+
+def _round_trips(obs, case, f, ctx, cfg, combos, light):
+    """serialize f.model once, run every (codec, placeholders) round trip in `combos`, compare every rebuilt model
+    with f.  -> {(codec, ph): (Fitted rebuilt, tags)}"""
     from xeofs.utils import io as xio
 
     name = case["cls"]
-    cfg = _cfg_tags(case)
-    obs.cell(f"cls:{name}", f"container:{case['container']}", f"nan:{case['nan']}", f"attr:{case['attr']}",
-             f"where:{case['where']}", f"pv:{case['pv']}", f"lazy:{case['lazy']}", f"hist:{case['hist']}",
-             f"name:{case['name']}", f"cplx:{case['cplx']}")
-    for k in HOOK:
-        HOOK[k] = 0
-    fields, new_fields, dim = build(case)
-
-    # ---- a fitted model with its history (no fitted model -> nothing to serialise) ------------
-    try:
-        with warnings.catch_warnings():
-            warnings.simplefilter("ignore")
-            f = _fit(case, fields, dim)
-            if case["lazy"] == "lazy_post":
-                f.model.compute()
-                if f.base is not None:
-                    pass
-    except Exception as e:  # noqa: BLE001
-        obs.refuse(f"fit raised {type(e).__name__}: {str(e)[:200]} [{exception_site(e, REPO)}]")
-    ctx = Ctx()
-    ctx.fields, ctx.new_fields = fields, new_fields
-    try:
-        with warnings.catch_warnings():
-            warnings.simplefilter("ignore")
-            h = case["hist"]
-            if h == "transform" and name in zoo.HAS_TRANSFORM:
-                f.transform(*fields)
-            elif h == "transform_new" and name in zoo.HAS_TRANSFORM:
-                f.transform(*new_fields)
-            elif h == "inverse" and name in zoo.HAS_INVERSE:
-                f.inverse_transform(*f.scores())
-            elif h == "reloaded":
-                try:
-                    m1 = type(f.model).deserialize(f.model.serialize())
-                except Exception as e:  # noqa: BLE001
-                    obs.check("reload_raises", False, f"{type(e).__name__}: {e}",
-                              tags=dict(cfg, stage="deserialize", codec="identity", placeholders=False, symptom="exception",
-                                        exc=type(e).__name__, site=str(exception_site(e, REPO))))
-                    return
-                f = zoo.Fitted(name, m1, f.fields)
-            ctx.score_in = [s for s in f.scores()]
-    except Exception as e:  # noqa: BLE001
-        obs.refuse(f"pre-serialisation history raised {type(e).__name__}: {str(e)[:200]} [{exception_site(e, REPO)}]")
     model = f.model
-    if zoo.kind(name) in ("single_rot", "cross_rot"):
-        try:
-            idx = np.asarray(model.data["idx_modes_sorted"].values)
-            obs.cell(f"rot_reordered:{bool((idx != np.arange(idx.size)).any())}")
-        except Exception:  # noqa: BLE001
-            pass
-
-    # ---- serialise once per round trip, all before any further query -----------------------------
     params0 = copy.deepcopy(model.get_params())
-    try:
+
+    def fresh():
         with warnings.catch_warnings():
             warnings.simplefilter("ignore")
-            dt0 = model.serialize()
+            return model.serialize()
+
+    try:
+        dt0 = fresh()
     except Exception as e:  # noqa: BLE001
-        obs.check("serialize_raises", False, f"{type(e).__name__}: {e}",
-                  tags=dict(cfg, stage="serialize", symptom="exception", exc=type(e).__name__,
-                            site=str(exception_site(e, REPO))))
-        return
+        _through(e)
+        obs.check("serialize_raises", False, f"{type(e).__name__}: {e}", tags=_exc_tags(e, **dict(cfg, stage="serialize", op="serialize")))
+        return {}
     obs.count("serialize")
-    combos = _combos(case)
+    # serialize() costs 0.2-0.5 s (DataTree assembly): the round trips work on deep clones of ONE serialisation
+    # (each clone verified `identical` to the source, else a fresh serialize() is used), the last one on the tree
+    # serialize() itself returned.  All trees exist before the first query is made.
     trees = {}
     for i, cb in enumerate(combos):
-        # serialize() costs 0.2-0.5 s (DataTree assembly); the round trips work on deep clones of ONE serialisation
-        # (checked `identical` to the source once per case), the last one on the tree serialize() returned.
-        trees[cb] = dt0 if i == len(combos) - 1 else _clone(dt0)
-    if len(combos) > 1:
-        first = trees[combos[0]]
-        obs.check("harness_clone_identical", bool(first.identical(dt0)), "deep clone of the serialised tree differs",
-                  tags={"stage": "harness", "symptom": "clone"})
-    light = case["lazy"] == "lazy_pre"
+        if i == len(combos) - 1:
+            trees[cb] = dt0
+            continue
+        try:
+            cl = _clone(dt0)
+            ok = bool(cl.identical(dt0))
+        except Exception as e:  # noqa: BLE001
+            _through(e)
+            ok = False
+        if not ok:
+            obs.cell("clone_fallback_fresh_serialize")
+            cl = fresh()
+        trees[cb] = cl
     ref = _queries(f, ctx, light)
 
     rebuilt = {}
@@ -902,9 +886,8 @@ def run_case(case, obs):
                           f"{n_before} nodes with allow_compute=False, {n_ph} placeholders",
                           tags=dict(tags, stage="placeholders", symptom="placeholder_count"))
             except Exception as e:  # noqa: BLE001
-                obs.check("placeholders_raise", False, f"{type(e).__name__}: {e}",
-                          tags=dict(tags, stage="placeholders", symptom="exception", exc=type(e).__name__,
-                                    site=str(exception_site(e, REPO))))
+                _through(e)
+                obs.check("placeholders_raise", False, f"{type(e).__name__}: {e}", tags=_exc_tags(e, **dict(tags, stage="placeholders")))
                 continue
         # codec ------------------------------------------------------------------------
         before = _snapshot_user_attrs(dt)
@@ -913,11 +896,11 @@ def run_case(case, obs):
             try:
                 dt = codec_nc(dt)
             except Exception as e:  # noqa: BLE001
+                _through(e)
                 off = _nc_offender(dt) or {}
                 origin = "user" if off.get("key") in USER_KEYS else "xeofs"
-                t = dict(stage="codec", codec="nc", symptom="exception", exc=type(e).__name__,
-                         site=str(exception_site(e, REPO)), value_class=off.get("value_class", "unknown"),
-                         attr_origin=origin, attr_level=off.get("level", "unknown"))
+                t = _exc_tags(e, stage="codec", codec="nc", value_class=off.get("value_class", "unknown"),
+                              attr_origin=origin, attr_level=off.get("level", "unknown"))
                 if origin == "user":
                     t["attr_where"] = case["where"]
                 else:
@@ -947,6 +930,8 @@ def run_case(case, obs):
                     t["attr_where"] = case["where"]
                 else:
                     t.update(attr_key=p["key"], node_role=_role(path), container=case["container"])
+                    if case["name"] != "default":
+                        t["name"] = case["name"]
                 _fail_plain(obs, "json_codec_raises",
                             f"attr {p['key']!r} of type {p['value_type']} at {path} var={var} is not JSON-encodable "
                             f"(placeholders={ph}, cls={name}); coerced={p['coerced']}", t)
@@ -961,15 +946,17 @@ def run_case(case, obs):
         after = _snapshot_user_attrs(dt)
         if case["attr"] != "none":
             obs.cell(f"user_attr_changed:{codec}:{case['attr']}:{before != after}")
+        if before != after:
+            tags["user_attr_changed"] = True  # recorded, not judged; delimits mechanisms that hinge on it
         # rebuild ------------------------------------------------------------------------
         try:
             with warnings.catch_warnings():
                 warnings.simplefilter("ignore")
                 m2 = type(model).deserialize(dt)
         except Exception as e:  # noqa: BLE001
+            _through(e)
             obs.check("deserialize_raises", False, f"{type(e).__name__}: {e}",
-                      tags=dict(tags, stage="deserialize", symptom="exception", exc=type(e).__name__,
-                                site=str(exception_site(e, REPO))))
+                      tags=_exc_tags(e, **dict(tags, stage="deserialize", op="deserialize")))
             continue
         obs.count("rebuilt")
         f2 = zoo.Fitted(name, m2, f.fields)
@@ -980,27 +967,94 @@ def run_case(case, obs):
                   tags=dict(tags, stage="params", op="get_params", symptom="params_differ"))
         if repr(p2) != repr(params0):
             obs.cell(f"param_repr_changed:{codec}")
-        if case["lazy"] == "lazy_pre":
+        if light:
             try:
                 lazy2 = any(hasattr(v.data, "dask") for v in m2.data.values())
                 obs.cell(f"rebuilt_lazy:{lazy2}")
-            except Exception:  # noqa: BLE001
-                pass
+            except Exception as e:  # noqa: BLE001
+                _through(e)
         got = _queries(f2, ctx, light)
         n = _compare(obs, case, ref, got, tags, "as_serialised")
         if n:
             obs.nontrivial = True
+    return rebuilt
 
-    # ---- serialised before compute(): both sides must also agree after compute() ----------------
-    if case["lazy"] == "lazy_pre" and rebuilt:
+
+def run_case(case, obs):
+    name = case["cls"]
+    cfg = _cfg_tags(case)
+    obs.cell(f"cls:{name}", f"container:{case['container']}", f"nan:{case['nan']}", f"attr:{case['attr']}",
+             f"where:{case['where']}", f"pv:{case['pv']}", f"lazy:{case['lazy']}", f"hist:{case['hist']}",
+             f"name:{case['name']}", f"cplx:{case['cplx']}", f"combos:{case.get('combos', 'all')}")
+    for k in HOOK:
+        HOOK[k] = 0
+    fields, new_fields, dim = build(case)
+
+    # ---- a fitted model with its history (no fitted model -> nothing to serialise) ------------
+    try:
+        with warnings.catch_warnings():
+            warnings.simplefilter("ignore")
+            f = _fit(case, fields, dim)
+    except Exception as e:  # noqa: BLE001
+        _through(e)
+        obs.refuse(f"fit raised {type(e).__name__}: {str(e)[:200]} [{exception_site(e, REPO)}]")
+    if case["lazy"] == "lazy_post":
         try:
             with warnings.catch_warnings():
                 warnings.simplefilter("ignore")
-                model.compute()
+                f.model.compute()
+        except Exception as e:  # noqa: BLE001
+            _through(e)
+            if _in_serialisation(e):  # compute() serialises and rebuilds the model internally
+                obs.check("serialize_raises", False, f"compute(): {type(e).__name__}: {e}",
+                          tags=_exc_tags(e, **dict(cfg, stage="serialize", op="compute")))
+                return
+            obs.refuse(f"compute() raised {type(e).__name__}: {str(e)[:200]} [{exception_site(e, REPO)}]")
+    ctx = Ctx()
+    ctx.fields, ctx.new_fields = fields, new_fields
+    h = case["hist"]
+    try:
+        with warnings.catch_warnings():
+            warnings.simplefilter("ignore")
+            if h == "transform" and name in zoo.HAS_TRANSFORM:
+                f.transform(*fields)
+            elif h == "transform_new" and name in zoo.HAS_TRANSFORM:
+                f.transform(*new_fields)
+            elif h == "inverse" and name in zoo.HAS_INVERSE:
+                f.inverse_transform(*f.scores())
+            ctx.score_in = [s for s in f.scores()]
+    except Exception as e:  # noqa: BLE001
+        _through(e)
+        obs.refuse(f"pre-serialisation history raised {type(e).__name__}: {str(e)[:200]} [{exception_site(e, REPO)}]")
+    if zoo.kind(name) in ("single_rot", "cross_rot"):
+        try:
+            idx = np.asarray(f.model.data["idx_modes_sorted"].values)
+            obs.cell(f"rot_reordered:{bool((idx != np.arange(idx.size)).any())}")
+        except Exception as e:  # noqa: BLE001
+            _through(e)
+    light = case["lazy"] == "lazy_pre"
+
+    if h == "reloaded":
+        # second-generation round trip: the model that gets serialised was itself rebuilt from a tree.
+        # Generation 1 is compared with the fitted model first, so nothing about it is taken on trust.
+        g1 = _round_trips(obs, case, f, ctx, dict(cfg, generation="first"), [("identity", False)], light)
+        if ("identity", False) not in g1:
+            return
+        f = g1[("identity", False)][0]
+        cfg = dict(cfg, generation="second")
+    rebuilt = _round_trips(obs, case, f, ctx, cfg, _combos(case), light)
+
+    # ---- serialised before compute(): both sides must also agree after compute() ----------------
+    if light and rebuilt:
+        ref2 = None
+        try:
+            with warnings.catch_warnings():
+                warnings.simplefilter("ignore")
+                f.model.compute()
             ref2 = _queries(f, ctx)
         except Exception as e:  # noqa: BLE001
+            _through(e)
             obs.note("orig_compute_raised", f"{type(e).__name__}: {e}")
-            ref2 = None
         if ref2 is not None:
             for (codec, ph), (f2, tags) in rebuilt.items():
                 try:
@@ -1008,9 +1062,9 @@ def run_case(case, obs):
                         warnings.simplefilter("ignore")
                         f2.model.compute()
                 except Exception as e:  # noqa: BLE001
+                    _through(e)
                     obs.check("rebuilt_compute_raises", False, f"{type(e).__name__}: {e}",
-                              tags=dict(tags, stage="compute", op="compute", symptom="exception", exc=type(e).__name__,
-                                        site=str(exception_site(e, REPO))))
+                              tags=_exc_tags(e, **dict(tags, stage="compute", op="compute")))
                     continue
                 got2 = _queries(f2, ctx)
                 _compare(obs, case, ref2, got2, tags, "after_compute")
